@@ -1718,8 +1718,8 @@ class LangServer:
         except OSError as e:
             self.post_message(f'Error: "{e}" while reading Configuration file')
 
-        # Erroneous json file syntax
-        except ValueError as e:
+        # Erroneous json file syntax, or nested too deeply for the reader
+        except (ValueError, RecursionError) as e:
             msg = f'Error: "{e}" while reading "{self.config}" Configuration file'
             self.post_message(msg)
 
